@@ -312,7 +312,7 @@ def run(tier: str, seed: int) -> Report:
             tcs_all = tcs + extra_cases
         else:
             tcs_all = tcs
-        verd, results = L.validate(tcs_all, workers=6)
+        verd, results = L.validate(tcs_all, capacity=45_000 if tier == "quick" else 90_000, workers=6)
         tlc_results += results
         _judge_cases(rep, chunk, vs, res, verd)
         _stats(rep, chunk, res, vs[0]["name"])
